@@ -370,3 +370,15 @@ def in_set3(poss, wanted):
     if not (poss & wanted):
         return False
     return None
+
+
+def checkers_pins_definition(facts):
+    """the function both constructors call to compute (checkers, pinned) for a colour: a method of Board taking
+    (&self, Color) and returning a pair of BitBoards -- identified by its signature, not its name"""
+    out = []
+    for k, b in facts.bodies.items():
+        if b.kind == "AssocFn" and b.j.get("impl_self") == B and b.argc == 2 and b.promoted is None and \
+                b.locals[0]["ty"].startswith("(cozy_chess_types::bitboard::BitBoard, cozy_chess_types::bitboard::BitBoard") and \
+                b.locals[1]["ty"].startswith("&") and b.locals[2]["ty"].endswith("color::Color"):
+            out.append(k)
+    return sorted(out)
